@@ -317,7 +317,10 @@ class Server(object):
             if not self._encrypt_session():
                 tls_failure.send(self.io)
                 raise StopIteration()
+            # The session starts over in its just-greeted state.
             self.ehlo_as = None
+            self.have_mailfrom = None
+            self.have_rcptto = None
             self.extensions.drop('STARTTLS')
 
     def _command_AUTH(self, arg):
